@@ -41,6 +41,12 @@ at it (stop() un-wires EVERY instance), so no other state depends on `act`
 (`selfact_irrelevant`); `FacadePushUpdater.active` relays the main instance's flag, which
 the driver prints and the harness compares.
 
+User-initiated operations (`userop`): FacadeAudio.set_volume / volume_up / volume_down /
+set_output_devices / add_ / remove_output_devices and FacadeKeyboard.text_* only relay to
+the protocol instance (pyatv/core/facade.py:456-503, 535-553); they write none of `_volume`,
+`_output_devices`, `_focus_state`.  What the listeners are told is decided by the device's
+*reports* (`change`) alone, whether or not the device applied the requested value.
+
 A user listener that raises: the call was made (it is an output of the model), the
 exception leaves the call_soon callback into the loop's exception handler, and — because
 the pinned code stores `_volume` / `_output_devices` / `_focus_state` and `_previous_state`
@@ -84,6 +90,8 @@ inductive Ev
   | release                                    -- call the newest outstanding release function
   | change (k : Kind) (p : Proto) (v : Val)    -- protocol p's state dispatcher: dispatch(k, v)
   | selfact (p : Proto) (b : Bool)             -- updater_p's own `active` turns b by itself (error, cancellation, restart)
+  | userop                                     -- user-initiated operation relayed by the facade (set_volume, volume_up/down,
+                                               -- set/add/remove_output_devices, text_set …): no listener state is touched
   | drain                                      -- the loop runs everything in its ready queue
   deriving DecidableEq, Repr
 
@@ -143,6 +151,7 @@ def step (st : St) : Ev → St × List Out
   | .start => ({ st with lst := true, act := fun q => if q ∈ st.regP then true else st.act q }, [])
   | .stop => ({ st with lst := false, act := fun q => if q ∈ st.regP then false else st.act q }, [])
   | .selfact p b => ({ st with act := setFn st.act p b }, [])
+  | .userop => (st, [])
   | .takeover p push kbd =>
       if st.takeoverOk push kbd then
         ({ st with tkP := if push then some p else st.tkP,
